@@ -1239,6 +1239,10 @@ class Dyn(Calls):
             res = VObj(r)
             if isinstance(rty, (TDict, TList, TSet)) or (isinstance(rty, TObj) and (rty.cls or "").startswith("nn:")):
                 self.assume(r != PyNone)
+        elif isinstance(rty, TRec):
+            # a record-valued callee (e.g. a named tuple): its own result function, of the record's sort
+            fr = z3.Function("retrec_" + fi.fid.replace(":", "_").replace(".", "_"), *([ObjSort] * len(terms) + [rty.sort()]))
+            res = self.from_term(fr(*terms) if terms else fr(), rty)
         else:
             res = self.from_term(self.unbox(VObj(r), rty) if rty in (TStr, TInt, TBool, TReal) else r, rty)
         env2 = dict(binding)
